@@ -90,7 +90,7 @@ def wrap_part(rep, quick, seed, binary, shards, env):
             rep.infra_error("behaviour generation WrapAbs/%s failed: %s" % (cfg, r.out[-1500:]))
             return []
         out[kind] = sc.maximal(r.tagged.get("BEH", []))
-    edge = sc.sample(out["edge"], 1000 if quick else 20000, seed)
+    edge = sc.sample(out["edge"], 800 if quick else 20000, seed)
     rep.cov.setdefault("edge_behaviours", {})["WrapAbs"] = dict(maximal=len(out["edge"]), replayed=len(edge))
     behs = edge + out["sim"]
     wargs = ["replay-x03w"]
@@ -201,7 +201,7 @@ def generate(rep, quick, seed):
             rep.infra_error("behaviour generation DaemonAbs/%s failed: %s" % (cfg, r.out[-1500:]))
             return None
         out[kind] = sc.maximal(r.tagged.get("BEH", []))
-    cap = 1300 if quick else 30000
+    cap = 1000 if quick else 30000
     edge = sc.sample(out["edge"], cap, seed)
     rep.cov["edge_behaviours"] = dict(DaemonAbs=dict(maximal=len(out["edge"]), replayed=len(edge)))
     rep.cov["all_sequences"] = dict(DaemonAbs=dict(depth=5, behaviours=len(out["all"])))
@@ -300,8 +300,8 @@ def trace_key(hist, info):
 def traces(rep, binary, quick, seed, results, shards):
     """code -> model: the event logs of the stepped replays and free-running recordings, judged by DaemonTrace"""
     hists = [r["hist"] for r in results.values() if r.get("ok") and not r.get("inconclusive") and not r.get("truncated") and r.get("hist")]
-    hists = sc.sample(hists, 600 if quick else 6000, seed)
-    n = 600 if quick else 12000
+    hists = sc.sample(hists, 400 if quick else 6000, seed)
+    n = 400 if quick else 12000
     k = min(shards, 6)
     rec = []
     with cf.ThreadPoolExecutor(max_workers=k) as ex:
